@@ -21,7 +21,7 @@ REPLAY = '''
 sys.path.insert(0, '/verif')
 import warnings; warnings.filterwarnings('ignore')
 from checks.c18 import concrete_run
-msg = concrete_run(%(nports)d, %(lat)d, %(sink_delay)d, %(reqs)r, %(init)r)
+msg = concrete_run(%(nports)d, %(lat)d, %(sink_delay)d, %(reqs)r, %(init)r, %(variant)r)
 if msg: reproduced(msg)
 '''
 
@@ -59,7 +59,38 @@ def _classes():
   return mk_mem_msg(8, 32, 32)
 
 
-def _harness(nports, src_msgs, sink_msgs, lat, sink_delay, stall_prob):
+def _harness_rtl(nports, src_msgs, sink_msgs, lat, sink_delay, stall_prob):
+  """the stream (val/rdy, RTL-interface) variant: SourceRTL -> MagicMemoryRTL (RandomStall, InelasticDelayPipe) -> SinkRTL"""
+  from pymtl3 import Component
+  from pymtl3.stdlib.stream.SourceRTL import SourceRTL
+  from pymtl3.stdlib.stream.SinkRTL import SinkRTL
+  from pymtl3.stdlib.stream.magic_memory import MagicMemoryRTL
+  req_cls, resp_cls = _classes()
+
+  class THR(Component):
+    def construct(s):
+      s.srcs = [SourceRTL(req_cls, src_msgs[i], 0, 0) for i in range(nports)]
+      s.mem = MagicMemoryRTL(nports, [(req_cls, resp_cls)] * nports, stall_prob, lat)
+      s.sinks = [SinkRTL(resp_cls, sink_msgs[i], 0, sink_delay) for i in range(nports)]
+      for i in range(nports):
+        s.srcs[i].send //= s.mem.ifc[i].req
+        s.mem.ifc[i].resp //= s.sinks[i].recv
+    def done(s): return all(x.done() for x in s.srcs) and all(x.done() for x in s.sinks)
+  return THR()
+
+
+def _install_stalls(th, variant):
+  if variant == 'cl':
+    for i, st in enumerate(th.mem.req_stalls): st.stall_rgen = SymStall(i)
+  else:
+    for i, st in enumerate(th.mem.req_stalls):
+      blk = [b for b in st._dsl.upblks if b.__name__ == 'up_rand'][0]
+      k = blk.__code__.co_freevars.index('stall_rgen')
+      blk.__closure__[k].cell_contents = SymStall(i)
+
+
+def _harness(nports, src_msgs, sink_msgs, lat, sink_delay, stall_prob, variant='cl'):
+  if variant == 'rtl': return _harness_rtl(nports, src_msgs, sink_msgs, lat, sink_delay, stall_prob)
   from pymtl3 import Component, connect
   from pymtl3.stdlib.mem.MagicMemoryCL import MagicMemoryCL
   from pymtl3.stdlib.test_utils import TestSinkCL, TestSrcCL
@@ -77,7 +108,7 @@ def _harness(nports, src_msgs, sink_msgs, lat, sink_delay, stall_prob):
   return TH()
 
 
-def concrete_run(nports, lat, sink_delay, reqs, init):
+def concrete_run(nports, lat, sink_delay, reqs, init, variant='cl'):
   """replay on the pristine library: reqs[port] = [(type, addr, len, data, opaque)], init = {addr: byte}.
   Tries stall probability 0 and 0.5 (stall decisions may only change WHEN responses arrive)."""
   from pymtl3 import DefaultPassGroup
@@ -90,7 +121,7 @@ def concrete_run(nports, lat, sink_delay, reqs, init):
     for p, (t, a, l, d, o) in order:
       rl, rd = MS.py_step(mem, t, a, l, d)
       exp[p].append(resp_cls(t, o, 0, rl, rd))
-    th = _harness(nports, [[req_cls(t, o, a, l, d) for (t, a, l, d, o) in x] for x in reqs], exp, lat, sink_delay, prob)
+    th = _harness(nports, [[req_cls(t, o, a, l, d) for (t, a, l, d, o) in x] for x in reqs], exp, lat, sink_delay, prob, variant)
     th.elaborate()
     for a, b in init.items(): th.mem.mem.mem[a] = b
     th.apply(DefaultPassGroup()); th.sim_reset()
@@ -98,7 +129,7 @@ def concrete_run(nports, lat, sink_delay, reqs, init):
     try:
       while not th.done() and n < 200: th.sim_tick(); n += 1
     except Exception as e:
-      return f"MagicMemoryCL nports={nports} latency={lat} sink_delay={sink_delay} stall_prob={prob} requests {reqs}: {type(e).__name__}: {str(e)[:300]}"
+      return f"MagicMemory{variant.upper()} nports={nports} latency={lat} sink_delay={sink_delay} stall_prob={prob} requests {reqs}: {type(e).__name__}: {str(e)[:300]}"
     if not th.done(): return f"MagicMemoryCL nports={nports} latency={lat} sink_delay={sink_delay} stall_prob={prob}: not all responses arrived after {n} cycles"
     for a in set(mem) | set(init):
       if th.mem.mem.mem[a] != mem.get(a, 0): return f"final image byte {a:#x} = {th.mem.mem.mem[a]:#x}, sequential specification {mem.get(a, 0):#x} (requests {reqs})"
@@ -117,7 +148,10 @@ def item_mem(it):
   from pymtl3 import DefaultPassGroup
   req_cls, resp_cls = _classes()
   fam, nreq, lat, nports, sink_delay, stalls = it['family'], it['nreq'], it['lat'], it['nports'], it['sink_delay'], it['stalls']
-  name = f"mem/{fam}/ports={nports}/reqs={nreq}/lat={lat}/sinkdelay={sink_delay}/stalls={'sym' if stalls else 'none'}"
+  variant = it.get('variant', 'cl')
+  import pymtl3.stdlib.stream.magic_memory as SMM
+  core.install(SMM.__dict__)
+  name = f"mem-{variant}/{fam}/ports={nports}/reqs={nreq}/lat={lat}/sinkdelay={sink_delay}/stalls={'sym' if stalls else 'none'}"
   res = Result(name)
   types = MS.FAMILIES[fam]
   V = []      # per port list of (t, a, l, d, o)
@@ -151,12 +185,11 @@ def item_mem(it):
       t, a, l, d, o = V[p][i]
       arr, rlen, rdata = MS.z3_step(arr, t, a, l, d)
       exp[p].append(mk(resp_cls, type_=t, opaque=o, test=0, len=rlen, data=rdata))
-    th = _harness(nports, srcs, exp, lat, sink_delay, 0.5 if stalls else 0)
+    th = _harness(nports, srcs, exp, lat, sink_delay, 0.5 if stalls else 0, variant)
     th.elaborate()
     store = ArrayBytes(1 << 20, arr0)
     th.mem.mem.mem = store
-    if stalls:
-      for i, st in enumerate(th.mem.req_stalls): st.stall_rgen = SymStall(i)
+    if stalls: _install_stalls(th, variant)
     th.apply(DefaultPassGroup()); th.sim_reset()
     n = 0
     while not th.done() and n < 60 + 20 * nreq * (lat + sink_delay + 2): th.sim_tick(); n += 1
@@ -173,8 +206,8 @@ def item_mem(it):
       m = sv.model(); g = lambda x: m.eval(x, model_completion=True).as_long()
       reqs = [[(g(t), g(a), g(l), g(d), g(o)) for (t, a, l, d, o) in V[p]] for p in range(nports)]
       init = {k: g(z3.Select(arr0, z3.BitVecVal(k, 32))) for k in range(WINDOW + 4)}
-      rec['violations'].append(dict(key=f"MagicMemoryCL:{fam}", what=f"{name}: {what}", speculative=speculative,
-                                    replay=REPLAY % dict(nports=nports, lat=lat, sink_delay=sink_delay, reqs=reqs, init=init)))
+      rec['violations'].append(dict(key=f"MagicMemory{variant.upper()}:{fam}", what=f"{name}: {what}", speculative=speculative,
+                                    replay=REPLAY % dict(nports=nports, lat=lat, sink_delay=sink_delay, reqs=reqs, init=init, variant=variant)))
     if exc is not None:
       # an exception may stem from the byte-store stand-in (no buffer protocol): propose models with every address
       # alignment first (speculative: kept only if the replay on the real code reproduces), then the plain model
@@ -222,6 +255,8 @@ def main():
     add(family='amo_arith', nreq=2, lat=1, nports=1, sink_delay=2, stalls=False)
     add(family='amo_arith', nreq=1, lat=0, nports=1, sink_delay=0, stalls=True)
     add(family='amo_minmax', nreq=2, lat=1, nports=1, sink_delay=1, stalls=False)
+    add(family='rw', nreq=2, lat=1, nports=1, sink_delay=1, stalls=True, variant='rtl')
+    add(family='amo_arith', nreq=2, lat=0, nports=1, sink_delay=2, stalls=False, variant='rtl')
   else:
     for fam in MS.FAMILIES:
       for lat in (0, 1, 3):
@@ -230,6 +265,10 @@ def main():
       add(family=fam, nreq=1, lat=1, nports=2, sink_delay=1, stalls=False)
     add(family='rw', nreq=3, lat=1, nports=1, sink_delay=1, stalls=False)
     add(family='rw', nreq=2, lat=1, nports=2, sink_delay=0, stalls=False)
+    for fam in MS.FAMILIES:
+      add(family=fam, nreq=2, lat=1, nports=1, sink_delay=2, stalls=True, variant='rtl')
+      add(family=fam, nreq=2, lat=0, nports=1, sink_delay=0, stalls=False, variant='rtl')
+    add(family='rw', nreq=1, lat=2, nports=2, sink_delay=1, stalls=False, variant='rtl')
   for it, r in pmap(item_mem, items, item_timeout=1500 if tier == 'quick' else 6000):
     chk.absorb(it, r)
   chk.bounds = dict(configs=[i['name'] for i in items], window_bytes=WINDOW, requests_per_port='<= 2 (3 in one thorough configuration)', ports='1..2',
